@@ -6,14 +6,14 @@ From FP Require Import GenTieTac GenTiePow GenTieWide GenTieRound.
 
 Lemma tie_round pf dflt d n : g_Round_round pf dflt d n = dec_round pf dflt d n.
 Proof.
-  unfold g_Round_round, dec_round. to_model. change ROUND_SHORTCUT with 38. unfold DZERO.
-  tie.
+  unfold g_Round_round, dec_round. unfold_helpers_dec. change ROUND_SHORTCUT with 38. unfold DZERO.
+  tie3.
 Qed.
 
 Lemma tie_checked_round pf dflt d n : g_Round_checked_round pf dflt d n = dec_checked_round pf dflt d n.
 Proof.
-  unfold g_Round_checked_round, dec_checked_round. to_model. change ROUND_SHORTCUT with 38. unfold DZERO.
-  tie.
+  unfold g_Round_checked_round, dec_checked_round. unfold_helpers_dec. change ROUND_SHORTCUT with 38. unfold DZERO.
+  tie3.
 Qed.
 
 Lemma src_round_acc pf m d n : wf d = true -> -128 <= n <= 127 ->
